@@ -507,10 +507,11 @@ const (
 	r8CorruptBlock
 	r8SourceFails
 	r8EmptyThenCorrupt // an empty stored block early in the frame, a corrupted block later
+	r8ResetMidstream   // the Reader is Reset to a second frame while the pipeline of the first is still running
 	numR8
 )
 
-var r8Names = []string{"clean", "corrupt-block", "source-fails", "empty-block-then-corrupt-block"}
+var r8Names = []string{"clean", "corrupt-block", "source-fails", "empty-block-then-corrupt-block", "reset-midstream"}
 
 func c08Reader(c *Ctx, i int64) {
 	per := c08Perturb(c)
@@ -555,6 +556,17 @@ func c08Reader(c *Ctx, i int64) {
 		corruptAt = 8 + b.DataOff + g.N(b.Size)
 		in[corruptAt] ^= 1 << uint(g.N(8))
 	}
+	// reset-midstream: a first frame (other content) is read in part, then the Reader is Reset to `in`
+	var first []byte
+	if cond == r8ResetMidstream {
+		other := distinctBlocks(g, 4+g.N(6), 65536, 1+g.N(3000))
+		first, _, err = writeScript(wcfg{bs: lz4.Block64Kb, bc: g.Bool(), cc: true, conc: 1, level: lz4.Fast}, []wstep{{data: other}})
+		if err != nil {
+			c.Violation("reference-run-failed", "cannot build the frame: "+err.Error(), nil)
+			return
+		}
+	}
+	partial := g.N(3) // how much of the first frame is read before Reset: nothing but the header / one small read / one block and a bit
 	mode2, seed, slow, pname := perturbFor(c, i+1_000_000, p)
 	before, _ := libGoroutines()
 	mon.PoolStart(seed&1 == 0)
@@ -567,9 +579,20 @@ func c08Reader(c *Ctx, i int64) {
 	c.Tag(fmt.Sprintf("reader/%s/conc%d", r8Names[cond], conc))
 	wr := c.Watch("concurrent-reader", func() {
 		r := lz4.NewReader(src)
+		if cond == r8ResetMidstream {
+			r = lz4.NewReader(&gen.Source{Data: first, Budget: 100000, MaxChunk: 70000})
+		}
 		if err := r.Apply(lz4.ConcurrencyOption(conc), lz4.OnBlockDoneOption(func(n int) { atomic.AddInt64(&blocks, 1) })); err != nil {
 			rerr = err
 			return
+		}
+		if cond == r8ResetMidstream {
+			pb := make([]byte, []int{1, 997, 65536 + 4000}[partial])
+			if _, err := io.ReadFull(r, pb); err != nil {
+				rerr = fmt.Errorf("partial read of the first frame: %w", err)
+				return
+			}
+			r.Reset(src)
 		}
 		if mode == rdWriteTo {
 			var buf bytes.Buffer
@@ -642,9 +665,9 @@ func c08Reader(c *Ctx, i int64) {
 	c.Count("poison_checks", rep.PoisonChecks)
 	c.Count("quarantined_buffers_reused", rep.ReusedQuarantine)
 	switch cond {
-	case r8Clean:
+	case r8Clean, r8ResetMidstream:
 		if rerr != nil || !bytes.Equal(out, data) {
-			key := "reader-output-wrong/clean"
+			key := "reader-output-wrong/" + r8Names[cond]
 			if bytes.Contains(out, bytes.Repeat([]byte{0xDB}, 64)) {
 				key = "read-after-release/poison-in-output/reader"
 			}
@@ -683,7 +706,9 @@ func c08Reader(c *Ctx, i int64) {
 			collected = append(collected, e.ID)
 		}
 	}
-	if len(collected) > len(read) {
+	if cond == r8ResetMidstream {
+		// two pipelines log into the same list: their relative order is free; the output comparison decides
+	} else if len(collected) > len(read) {
 		c.Violation("ordering/reader-collected-more-than-read", fmt.Sprintf("%d blocks collected, %d read", len(collected), len(read)), det())
 	} else {
 		for j := range collected {
